@@ -14,25 +14,21 @@
    function model of pkg/JsonResource.go, whose output is compared byte for byte
    with ParseJSONRule on every generated case), the parser model of C17 and the
    from-scratch evaluator Fresh.v; they are defined in proofs/C18Proof.v.
-   The full statement is refuted (findings D12, D13, D14); the partial theorem
-   holds under the decidable side condition wf_trule. *)
+   The findings D12-D15 and the lone-operand "not" are repaired in the engine
+   (12086c3, 2cd0fef, e1f41de, e582254, eb4ea8e); no refutation remains.
+   The main theorem quantifies over the typed JSON rules satisfying the decidable
+   predicate wf_trule, which demands only: the shape every accepted rule has
+   (identifier name, non-empty action list, join operators with >= 2 operands,
+   "not" with >= 1, and/or over >= 2 objects); plain strings spelled canonically
+   (operand = text of a well-formed atom, condition = of a well-formed expression,
+   action = of a well-formed statement ending in ";"); salience within 32 bits,
+   integer constants within 64; and/or nested at most 1000 deep (the translator
+   stops at 1024). *)
 From Grule Require Import Base Syntax Lexer Parser GrlPrint JsonRule JsonProofs JsonParse C18Proof.
 
-Theorem C18_partial : C18_partial_statement.
-Proof. exact C18_partial_proved. Qed.
-Print Assumptions C18_partial.
-
-Theorem C18_refuted_description : ~ C18_statement.
-Proof. exact C18_statement_refuted_by_description. Qed.
-Print Assumptions C18_refuted_description.
-
-Theorem C18_refuted_not : ~ C18_statement.
-Proof. exact C18_statement_refuted_by_not. Qed.
-Print Assumptions C18_refuted_not.
-
-Theorem C18_refuted_arity : ~ C18_arity_statement.
-Proof. exact C18_arity_refuted. Qed.
-Print Assumptions C18_refuted_arity.
+Theorem C18 : C18_main_statement.
+Proof. exact C18_main_proved. Qed.
+Print Assumptions C18.
 
 Theorem C18_malformed : C18_malformed_statement.
 Proof. exact C18_malformed_proved. Qed.
